@@ -587,14 +587,18 @@ Proof.
   intros H. apply andb_true_iff in H. tauto.
 Qed.
 
+Lemma rules_of_TUint x : rules_of TUint x = leaf_rules x.
+Proof. reflexivity. Qed.
+Lemma rules_of_TGeneric x : rules_of TGeneric x = leaf_rules x.
+Proof. reflexivity. Qed.
+
 Theorem uint_valid_spec : forall x,
   valid TUint x = true ->
   forall v m, uint_leaf x = Some (v, m) -> be_value v < be_value m.
 Proof.
-  intros x H v m E.
-  assert (H41 : fst (leaves_ok 40 x) = true) by (apply leaf_rules_41; exact H).
-  clear H. revert H41. generalize 39%nat at 0. intros _.
-  change 40%nat with (S 39). intros H41. exact (leaves_ok_here 39 x H41 v m E).
+  intros x H v m E. unfold valid in H. rewrite rules_of_TUint in H.
+  pose proof (leaf_rules_41 x H) as L.
+  exact (leaves_ok_here 39 x L v m E).
 Qed.
 
 (* the same for types the model knows only generically: a Uint anywhere directly below the top *)
@@ -603,10 +607,11 @@ Theorem generic_uint_leaves_spec : forall x,
   (forall v m, uint_leaf x = Some (v, m) -> be_value v < be_value m) /\
   (forall ps k y v m, x = Map ps -> In (k, y) ps -> uint_leaf y = Some (v, m) -> be_value v < be_value m).
 Proof.
-  intros x H. unfold valid in H. cbn [rules_of] in H. apply leaf_rules_41 in H.
-  split; [exact (leaves_ok_here 39 x H)|].
+  intros x H. unfold valid in H. rewrite rules_of_TGeneric in H.
+  pose proof (leaf_rules_41 x H) as L. clear H.
+  split; [exact (leaves_ok_here 39 x L)|].
   intros ps k y v m -> Hin E.
-  destruct (leaves_ok_sub 39 (Map ps) H) as [_ [Hm _]].
+  destruct (leaves_ok_sub 39 (Map ps) L) as [_ [Hm _]].
   exact (leaves_ok_here 38 y (Hm ps eq_refl k y Hin) v m E).
 Qed.
 
